@@ -455,6 +455,7 @@ func runProperty(eng *symex.Engine, prop, tier string, t0 time.Time) int {
 	known := map[string]bool{}
 	os.MkdirAll("/verif/replays", 0o755)
 	var failed []symex.Result
+	nReplays := 0
 	for _, r := range results {
 		byKind[r.O.Kind]++
 		solverSecs += r.Secs
@@ -510,12 +511,28 @@ func runProperty(eng *symex.Engine, prop, tier string, t0 time.Time) int {
 			continue
 		}
 		violations++
-		path := writeReplay(prop, r)
+		var rr *realReplay
+		if nReplays < 8 {
+			// the verifier's counterexample, replayed on the real code (adapters exist for some function families)
+			if rr = replayOnRealCode(r); rr != nil {
+				nReplays++
+				r.Output = rr.text() + r.Output
+			}
+		}
+		path := writeReplayWith(prop, r, rr)
 		suffix := ""
-		if !strings.Contains(r.Output, "REPLAYED-ON-REAL-CODE") {
+		if rr == nil || !rr.Failed {
 			suffix = " no-failing-input-found"
 		}
 		fmt.Printf("VIOLATION property=%s replay=%s obligation=%q status=%s%s\n", prop, path, r.O.Name, r.Status, suffix)
+		if rr != nil && rr.Failed {
+			for _, l := range strings.Split(rr.text(), "\n") {
+				if strings.Contains(l, "REPLAY-FAIL") {
+					fmt.Println("  " + l)
+					break
+				}
+			}
+		}
 	}
 	wall := time.Since(t0).Seconds()
 	ev := evidence{PropertyID: prop, Tier: tier, Seed: seed, Level: info.Level, WallS: wall, Violations: violations}
@@ -585,12 +602,18 @@ func contractsHash(eng *symex.Engine) string {
 	return fmt.Sprintf("%x", h.Sum(nil))[:16]
 }
 
-func writeReplay(prop string, r symex.Result) string {
+func writeReplay(prop string, r symex.Result) string { return writeReplayWith(prop, r, nil) }
+
+func writeReplayWith(prop string, r symex.Result, rr *realReplay) string {
 	os.MkdirAll("/verif/replays", 0o755)
 	h := sha256.Sum256([]byte(r.O.Name))
 	path := fmt.Sprintf("/verif/replays/%s-%x.json", prop, h[:6])
 	rec := map[string]any{"property": prop, "obligation": r.O.Name, "kind": r.O.Kind, "func": r.O.Func, "pos": r.O.Pos, "status": r.Status,
 		"note": r.O.Note, "solver_output": r.Output, "script": r.Script, "replay_cmd": "bin/vcheck -replay " + path}
+	if rr != nil {
+		rec["real_code_replay"] = map[string]any{"failed_on_real_code": rr.Failed, "package": rr.Pkg, "test_source": rr.Source, "go_test_output": rr.Output, "model": rr.Witness,
+			"how": "go test -overlay (the test is injected into the package, nothing is written to the repository) -run TestVcheckReplay ./" + rr.Pkg + "/"}
+	}
 	data, _ := json.MarshalIndent(rec, "", " ")
 	os.WriteFile(path, data, 0o644)
 	return path
@@ -610,6 +633,18 @@ func replay(path string) int {
 	}
 	script, _ := rec["script"].(string)
 	fmt.Printf("obligation: %v\n", rec["obligation"])
+	if rc, ok := rec["real_code_replay"].(map[string]any); ok {
+		// re-run the recorded counterexample on the repository's current code
+		src, _ := rc["test_source"].(string)
+		pkg, _ := rc["package"].(string)
+		out, failed := runInjectedTest(*flagRepo, pkg, src)
+		fmt.Print(out)
+		if failed {
+			fmt.Println("the recorded counterexample fails on the real code")
+			return 1
+		}
+		fmt.Println("the recorded counterexample does not fail on the current code")
+	}
 	if script == "" {
 		fmt.Println("no SMT script recorded (structural failure):", rec["solver_output"])
 		return 1
